@@ -152,8 +152,8 @@ def ceil_selftest(rng, n):
 def tie(ctx):
     rng = random.Random(ctx.seed * 7121 + 1501)
     schemas = K.rotate(G.SCHEMAS, ctx.seed, 11 if ctx.tier == "thorough" else 3)
-    per = 16 if ctx.tier == "thorough" else 6
-    nadv = 60 if ctx.tier == "thorough" else 36
+    per = 40 if ctx.tier == "thorough" else 6
+    nadv = 80 if ctx.tier == "thorough" else 36
     scripts = []
     hid = 0
     for s in schemas:
